@@ -601,7 +601,15 @@ def run(ctx):
     warnings.simplefilter('ignore')
     from gnpy.core.parameters import SimParams
     rng = ctx.rng
+    # second tie: re-translate the scalar content of the analytic GN model from /repo's source; the equivalence lemmas of
+    # Proofs/GNGen.v are then re-checked by check_props against what the code says now
+    from . import pygen_c03
+    gen_ok, gen_msg = pygen_c03.regenerate()
     ctx.proof = common.check_props('C03')
+    if not gen_ok:
+        ctx.proof['ok'] = False
+        ctx.proof['log'] = 'harness/pygen_c03.py: ' + gen_msg + '\n' + ctx.proof.get('log', '')
+        ctx.proof['failed_file'] = 'theories/Gen/GNGen.v (translation of /repo source failed)'
     ctx.rule = ('random fibres (1-200 km; scalar or per-frequency loss; default / scalar / slope / per-frequency '
                 'dispersion, either sign; default / effective-area / gamma; reference wavelength or frequency; input '
                 'connector and padding loss) x random non-overlapping combs (1-120 channels, C or L band, uniform or '
@@ -805,6 +813,12 @@ def run(ctx):
                            model=None if isinstance(m_nli, str) else m_nli[:8])
     ctx.extra['max_rel_deviation_model_vs_gnpy'] = worst_dev[0]
     ctx.assumptions += [
+        'translator tie: harness/pygen_c03.py (fail-closed Python-ast -> Gallina over Num for the SPM/XPM weights, '
+        'effective_length, the scalar content of _psi / _gn_analytic / the analytic arm of compute_nli, Fiber.alpha and '
+        'beta2, the reference / effective-area / contrast / loss-scaling statements of FiberParams.__init__, '
+        'effective_area_scaling, gamma_scaling, the input attenuation of Fiber.propagate and RamanFiber.propagate; the '
+        'outer()/ones() broadcasting and the branch structure around them are matched against templates) is trusted; '
+        'float literals are read as exact decimals, scipy.constants.c as 299792458',
         'NumF (binary64 with Gallina exp/ln/asinh/10^x/log10) approximates NumR: not proved; checked against libm on '
         'random points in every run (max relative error recorded in coverage.numf_selftest) and absorbed by the 1e-9 tolerance (measured deviation model vs gnpy <= 3e-13)',
         'Raman effect off (sim_params.raman_params.flag = False); the GGN methods are not covered by C03',
